@@ -247,6 +247,8 @@ func newGPOS(table tables.Layout) (GPOS, error) {
 				err = subtable.Sanitize()
 			case tables.PairPos:
 				err = subtable.Sanitize()
+			case tables.CursivePos:
+				err = subtable.Sanitize()
 			case tables.MarkBasePos:
 				err = subtable.Sanitize()
 			case tables.MarkLigPos:
